@@ -1,8 +1,210 @@
+/-
+C09 — routers return the declared operation whose template matches the URL.
+Property theorems, witnesses and non-vacuity examples only; models in KinModel/Router.lean (code side) and
+KinModel/RouterSpec.lean (property side), helper lemmas in KinModel/Lemmas/C09*.lean.
+-/
 import KinModel.Router
 import KinModel.RouterSpec
+import KinModel.Lemmas.C09Legacy
+import KinModel.Lemmas.C09Gorilla
 namespace KinModel.Props.C09
 open KinModel.Router
 
-theorem placeholder : takeSeg ([] : Str) = ([], []) := rfl
+/-! ## legacy router -/
+
+/-- the keys stored by NewRouter are exactly the declared (method, template) pairs -/
+theorem docKeys_declared (d : Doc) (k : Key) :
+    k ∈ docKeys d ↔ ∃ pd ∈ d.paths, pd.template = k.template ∧ k.method ∈ pd.methods := by
+  simp only [docKeys, List.mem_flatMap, List.mem_map]
+  constructor
+  · rintro ⟨pd, hpd, m, hm, rfl⟩; exact ⟨pd, hpd, rfl, hm⟩
+  · rintro ⟨pd, hpd, ht, hm⟩; exact ⟨pd, hpd, k.method, hm, by cases k; simp_all⟩
+
+/- Full statement (false for the code, finding #14):
+     legacyMatch d m rem = some (k, vals) → k ∈ docKeys d ∧ spell k.sufs vals = some (m ++ ' ' :: rem)
+   What holds: under non-empty bindings the returned values substituted into the returned key "METHOD template"
+   spell exactly the looked-up string "METHOD remainingPath" with its trailing slashes stripped. -/
+theorem legacy_match_sound_partial (d : Doc) (m rem : Str) (k : Key) (vals : List Str)
+    (h : legacyMatch d m rem = some (k, vals)) (hne : ∀ v ∈ vals, v ≠ []) :
+    k ∈ docKeys d ∧ spell k.sufs vals = some (stripSlashes (m ++ ' ' :: rem)) := by
+  obtain ⟨ext, path, e0, e1, e3⟩ := match_sound.1 (legacyRoot d) _ [] (k, vals) h
+  simp only [List.nil_append] at e1
+  subst e1
+  rcases build_paths (docKeys d) emptyNode (path, k) e0 with h0 | ⟨h1, h2⟩
+  · simp [paths_empty] at h0
+  · simp only at h1 h2
+    subst h2
+    exact ⟨h1, e3 hne (key_sufs_wf k)⟩
+
+/-- whatever the trie returns is a declared (method, template) pair (no exclusion needed) -/
+theorem legacy_match_declared (d : Doc) (m rem : Str) (k : Key) (vals : List Str)
+    (h : legacyMatch d m rem = some (k, vals)) : k ∈ docKeys d := by
+  obtain ⟨ext, path, e0, _, _⟩ := match_sound.1 (legacyRoot d) _ [] (k, vals) h
+  rcases build_paths (docKeys d) emptyNode (path, k) e0 with h0 | ⟨h1, _⟩
+  · simp [paths_empty] at h0
+  · exact h1
+
+/-- a route returned by the legacy router is a declared (method, template) pair, found under a matching server,
+    and (non-empty bindings) its key spells the request -/
+theorem legacy_route_sound_partial (d : Doc) (r : Req) (t m : Str) (ps : List (Str × Str))
+    (h : legacyFind d r = .route t m ps) :
+    ∃ sp rem k vals, legacyServer d r = some (sp, rem) ∧ legacyMatch d r.method rem = some (k, vals) ∧
+      k.template = t ∧ k.method = m ∧
+      (∃ pd ∈ d.paths, pd.template = t ∧ m ∈ pd.methods) ∧
+      ((∀ v ∈ vals, v ≠ []) → spell k.sufs vals = some (stripSlashes (r.method ++ ' ' :: rem))) := by
+  unfold legacyFind at h
+  split at h
+  · simp at h
+  · split at h
+    · simp at h
+    · rename_i sp rem hs
+      split at h
+      · rename_i k vals hm
+        simp only [Outcome.route.injEq] at h
+        obtain ⟨h1, h2, _⟩ := h
+        refine ⟨sp, rem, k, vals, hs, hm, h1, h2, ?_, fun hne => (legacy_match_sound_partial d _ _ _ _ hm hne).2⟩
+        have hk := legacy_match_declared d _ _ _ _ hm
+        obtain ⟨pd, hpd, e1, e2⟩ := (docKeys_declared d k).1 hk
+        exact ⟨pd, hpd, by rw [e1, h1], by rw [← h2]; exact e2⟩
+      · split at h
+        · simp at h
+        · split at h <;> simp at h
+
+/-! ## gorillamux router -/
+
+/-- every compiled mux route comes from a declared path item and one server -/
+theorem gorilla_routes_declared {d : Doc} {rs : List GRoute} (h : gorillaRoutes d = some rs) {r : GRoute} (hr : r ∈ rs) :
+    ∃ pd ∈ d.paths, ∃ s, mkRoute pd s = some r := by
+  unfold gorillaRoutes at h
+  split at h
+  · simp at h
+  · rename_i srvs _
+    have e := allSome_eq h
+    have : some r ∈ rs.map some := by simp [hr]
+    rw [← e] at this
+    simp only [List.mem_flatMap, List.mem_map] at this
+    obtain ⟨pd, hpd, s, _, hs⟩ := this
+    exact ⟨pd, (mem_inMatchingOrder _ _).1 hpd, s, hs⟩
+
+theorem gRouteMatch_path {r : GRoute} {req : Req} {b : List (Str × Str)} (h : gRouteMatch r req = some b) :
+    ∃ pb, gmatch '/' r.pathToks req.path = some pb := by
+  unfold gRouteMatch at h
+  split at h
+  · simp at h
+  · rename_i pb hpb; exact ⟨pb, hpb⟩
+
+/-- route_sound (gorillamux, full strength): a returned route carries the request method, its template is declared
+    with that method, and some assignment of non-empty slash-free values to the variables of
+    "server base path + template" reproduces the request path exactly -/
+theorem gorilla_route_sound (d : Doc) (req : Req) (t m : Str) (ps : List (Str × Str))
+    (h : gorillaFind d req = .route t m ps) :
+    m = req.method ∧ ∃ pd ∈ d.paths, pd.template = t ∧ m ∈ pd.methods ∧
+      ∃ base toks b, gparseS (base ++ t) = some toks ∧ gsubst toks b = some req.path ∧ ∀ p ∈ b, GoodFor '/' p.2 := by
+  unfold gorillaFind at h
+  split at h
+  · simp at h
+  · rename_i rs hrs
+    obtain ⟨pre, r, post, b, e, _, hm, ht, hmeth, hdecl⟩ := gFirst_route h
+    have hr : r ∈ rs := by rw [e]; simp
+    obtain ⟨pd, hpd, s, hmk⟩ := gorilla_routes_declared hrs hr
+    obtain ⟨e1, e2, e3, e4, _⟩ := mkRoute_some hmk
+    obtain ⟨pb, hpb⟩ := gRouteMatch_path hm
+    obtain ⟨g1, g2⟩ := gmatch_sound '/' _ _ _ hpb
+    refine ⟨hmeth, pd, hpd, by rw [← e1, ht], by rw [hmeth, ← e2]; exact hdecl, s.base, r.pathToks, pb, ?_, g1, g2⟩
+    rw [← ht, e1]; exact e4
+
+/-- no_match_is_error (gorillamux): the answer is path-not-found exactly when no compiled route matches the URL
+    (path template, scheme set, host template) -/
+theorem gorilla_not_found_iff (d : Doc) (req : Req) (rs : List GRoute) (h : gorillaRoutes d = some rs) :
+    gorillaFind d req = .notFound ↔ ∀ r ∈ rs, gRouteMatch r req = none := by
+  unfold gorillaFind
+  rw [h]
+  exact gFirst_notFound_iff rs req
+
+/-- … in particular a path that fills no "base + template" yields path-not-found, never a route -/
+theorem gorilla_no_match_is_error (d : Doc) (req : Req) (rs : List GRoute) (h : gorillaRoutes d = some rs)
+    (hno : ∀ r ∈ rs, ∀ b, (∀ p ∈ b, GoodFor '/' p.2) → gsubst r.pathToks b ≠ some req.path) :
+    gorillaFind d req = .notFound := by
+  rw [gorilla_not_found_iff d req rs h]
+  intro r hr
+  cases hm : gRouteMatch r req with
+  | none => rfl
+  | some b =>
+    obtain ⟨pb, hpb⟩ := gRouteMatch_path hm
+    obtain ⟨g1, g2⟩ := gmatch_sound '/' _ _ _ hpb
+    exact absurd g1 (hno r hr pb g2)
+
+/- Full statement (false for the code, finding #40):
+     r ∈ routes, the request fills r's template and satisfies r's scheme/host, method declared under r → routed.
+   What holds: … provided no matching route lacks the method (the first matching mux route decides). -/
+theorem gorilla_route_complete_partial (d : Doc) (req : Req) (rs : List GRoute) (h : gorillaRoutes d = some rs)
+    (r : GRoute) (hr : r ∈ rs) (b : List (Str × Str))
+    (hfill : gsubst r.pathToks b = some req.path) (hgood : ∀ p ∈ b, GoodFor '/' p.2)
+    (hscheme : schemeOK r req = true) (hhost : r.srv.host = [])
+    (hnoshadow : ∀ r' ∈ rs, gRouteMatch r' req ≠ none → req.method ∈ r'.methods) :
+    ∃ t ps, gorillaFind d req = .route t req.method ps := by
+  unfold gorillaFind
+  rw [h]
+  apply gFirst_complete _ hnoshadow
+  refine ⟨r, hr, ?_⟩
+  have hc := gmatch_complete '/' _ _ _ hfill hgood
+  unfold gRouteMatch
+  cases hm : gmatch '/' r.pathToks req.path with
+  | none => simp [hm] at hc
+  | some pb => simp [hscheme, hhost]
+
+/-- route_complete for a document without servers: filling a declared template with non-empty slash-free values
+    and asking with a declared method is routed, unless another matching template lacks the method (#40) -/
+theorem gorilla_route_complete_noservers_partial (d : Doc) (req : Req) (rs : List GRoute)
+    (hs : d.servers = []) (h : gorillaRoutes d = some rs)
+    (pd : PathDecl) (hpd : pd ∈ d.paths) (toks : List GTok) (hp : gparseS pd.template = some toks)
+    (hslash : pd.template.head? = some '/')
+    (b : List (Str × Str)) (hfill : gsubst toks b = some req.path) (hgood : ∀ p ∈ b, GoodFor '/' p.2)
+    (hnoshadow : ∀ r' ∈ rs, gRouteMatch r' req ≠ none → req.method ∈ r'.methods) :
+    ∃ t ps, gorillaFind d req = .route t req.method ps := by
+  have hr : (⟨pd.template, pd.methods, ⟨[], [], [], none⟩, toks, []⟩ : GRoute) ∈ rs := by
+    have h' := h
+    unfold gorillaRoutes at h'
+    simp only [hs, gMakeServers] at h'
+    have e := allSome_eq h'
+    have hm : mkRoute pd ⟨[], [], [], none⟩ = some ⟨pd.template, pd.methods, ⟨[], [], [], none⟩, toks, []⟩ := by
+      have hh : gparseS ([] : Str) = some [] := by simp [gparseS, gparse]
+      unfold mkRoute
+      simp only [List.nil_append, hp, hh]
+      simp [hslash, varNamesG]
+    have : some (⟨pd.template, pd.methods, ⟨[], [], [], none⟩, toks, []⟩ : GRoute) ∈ rs.map some := by
+      rw [← e]
+      simp only [List.mem_flatMap, List.mem_map]
+      exact ⟨pd, (mem_inMatchingOrder _ _).2 hpd, ⟨[], [], [], none⟩, by simp, hm⟩
+    simpa using this
+  exact gorilla_route_complete_partial d req rs h _ hr b hfill hgood (by simp [schemeOK]) rfl hnoshadow
+
+/-- literal_wins (gorillamux): a route is returned only if no compiled route of a path with fewer variables
+    matches the URL — in particular a templated path never wins over a matching literal path -/
+theorem gorilla_literal_wins (d : Doc) (req : Req) (rs : List GRoute) (hrs : gorillaRoutes d = some rs)
+    (t m : Str) (ps : List (Str × Str)) (h : gorillaFind d req = .route t m ps) :
+    ∀ r0 ∈ rs, nvars r0.template < nvars t → gRouteMatch r0 req = none := by
+  unfold gorillaFind at h
+  rw [hrs] at h
+  obtain ⟨pre, r, post, b, e, hpre, _, ht, _, _⟩ := gFirst_route h
+  have hpw := pairwise_routes hrs
+  rw [e, List.pairwise_append] at hpw
+  obtain ⟨_, hpost, _⟩ := hpw
+  rw [List.pairwise_cons] at hpost
+  intro r0 hr0 hlt
+  rw [e] at hr0
+  simp only [List.mem_append, List.mem_cons] at hr0
+  rcases hr0 with h0 | rfl | h0
+  · exact hpre r0 h0
+  · rw [ht] at hlt; omega
+  · have := hpost.1 r0 h0
+    rw [ht] at this; omega
+
+/-- inMatchingOrder_sorted: the order in which gorillamux compiles the paths has non-decreasing numbers of
+    variables, and is a rearrangement of the declared paths -/
+theorem inMatchingOrder_sorted (ps : List PathDecl) :
+    (inMatchingOrder ps).Pairwise (fun a b => nvars a.template ≤ nvars b.template) ∧
+    ∀ z, z ∈ inMatchingOrder ps ↔ z ∈ ps :=
+  ⟨pairwise_inMatchingOrder ps, mem_inMatchingOrder ps⟩
 
 end KinModel.Props.C09
